@@ -76,7 +76,7 @@ Example mm_fixed_on_f2 :
   mm_rose_fixed 2 f2u_roots None = Some (0%N, [(2, -1, 1%N)]).
 Proof. vm_compute. split; reflexivity. Qed.
 
-(* c_map_mutations_eq_rose_partial: all hypotheses hold on the arrays of the F2 tree with
+(* c_map_mutations_eq_rose: all hypotheses hold on the arrays of the F2 tree with
    genotypes [0,1,1,2] and a fixed ancestral state, and both sides are a non-trivial result *)
 Example c_map_mutations_eq_rose_nonvacuous :
   let g := [0; 1; 1; 2] in
@@ -90,7 +90,16 @@ Example c_map_mutations_eq_rose_nonvacuous :
     (fsize roots <? length (ta_left_child f2_arrays))%nat = true /\
     forallb (sets_nonzero (Z.to_nat (final_num_alleles 2 (Some 1)))) roots = true /\
     c_map_mutations_gen false f2_arrays g (Some 1) = Ok (1, [(4, -1, 0%N); (3, 0, 2%N); (2, 1, 1%N); (1, 1, 1%N)]) /\
-    l2_side_conditions false f2_arrays g = true.
+    arrays_okb f2_arrays roots = true /\
+    l2_side_conditions false f2_arrays g = true /\
+    (* the repaired variant on the F2 witness: hypotheses hold, one mutation on node 3 *)
+    (exists os1, init_sets true (ta_samples f2_arrays) f2_genotypes (repeat 0%N (S (length (ta_flags f2_arrays)))) 0 0 = Ok (os1, 1, 3)) /\
+    forallb (sets_nonzero (Z.to_nat (final_num_alleles 1 None))) (map demote f2_roots) = true /\
+    arrays_okb f2_arrays f2_roots = true /\
+    c_map_mutations_gen true f2_arrays f2_genotypes None = Ok (0, [(3, -1, 1%N)]) /\
+    (* the checker rejects inconsistent arrays: parent of node 1 changed from 3 to 4 *)
+    arrays_okb (mkTreeArrays (ta_left_child f2_arrays) (ta_right_sib f2_arrays) (ta_right_child f2_arrays)
+                  (ta_left_sib f2_arrays) [4; 4; 3; 4; -1; -1] (ta_flags f2_arrays) (ta_samples f2_arrays)) roots = false.
 Proof.
-  eexists. eexists. vm_compute. repeat split; reflexivity.
+  eexists. eexists. vm_compute. repeat split; try reflexivity. eexists. reflexivity.
 Qed.
